@@ -168,9 +168,17 @@ func checkC08(c *Ctx) {
 				what+"(<view parameter "+paramName(fn, k1)+">, <list parameter "+paramName(fn, k2)+">)", what+" called with view="+paramName(fn, k1)+" list="+paramName(fn, k2)+" (expected a view parameter and the list parameter of the rule)")
 		}
 	}
-	for _, s := range callsIn(ort, false, func(cc *ssa.CallCommon) bool { return cc.IsInvoke() && cc.Method.Name() == "RemoteTimeoutRule" }) {
-		a := s.Common().Args
-		facts := fl.At(s)
+	// (the rule may be called by the handler or by a private helper of its package that collects the timeout: the
+	// call is found from the handler, keys and facts in the handler's terms)
+	nRule := 0
+	for _, d := range deepInstrs(fl, func(in ssa.Instruction) bool {
+		call, ok := in.(*ssa.Call)
+		return ok && call.Call.IsInvoke() && call.Call.Method.Name() == "RemoteTimeoutRule"
+	}, 0) {
+		nRule++
+		call := d.Instr.(*ssa.Call)
+		a := call.Call.Args
+		facts := d.Facts
 		ok := len(labelIdx) > 0 && len(listIdx) > 0
 		k1, k2 := "?", "?"
 		for j := range labelIdx {
@@ -178,7 +186,7 @@ func checkC08(c *Ctx) {
 				ok = false
 				continue
 			}
-			k1 = fl.K.Key(a[j-1])
+			k1 = d.Key(a[j-1])
 			ok = ok && k1 == "p1."+kTOMsg+"View"
 		}
 		for j := range listIdx {
@@ -186,35 +194,40 @@ func checkC08(c *Ctx) {
 				ok = false
 				continue
 			}
-			k2 = fl.K.Key(a[j-1])
+			k2 = d.Key(a[j-1])
 			ok = ok && strings.HasPrefix(k2, kTCAdd) && strings.HasSuffix(k2, "#0") && trueOf(facts, is(strings.TrimSuffix(k2, "#0")+"#1"))
 		}
-		c.Check(ok, "C08.4", "OnRemoteTimeout->RemoteTimeoutRule", p.Pos(s.Pos()),
+		c.Check(ok, "C08.4", "OnRemoteTimeout->RemoteTimeoutRule", p.Pos(call.Pos()),
 			"the view argument that labels the certificate is timeout.View and the list argument is the list returned by add, only when add reported a quorum",
 			"RemoteTimeoutRule called with certificate view="+k1+", list="+k2+" (expected the view of the timeout message and the quorum returned by add)")
-		// C08.5 result reaches advanceView
-		rk := fl.K.Key(s.Value())
+		// C08.5 result reaches advanceView (judged in the function that calls the rule)
+		host, hfl := d.In, d.Flow
+		rk := hfl.K.Key(call)
 		adv := p.Method("protocol/synchronizer", "Synchronizer", "advanceView")
 		reached := false
-		for _, a := range callsIn(ort, false, func(cc *ssa.CallCommon) bool { return calleeIs(cc, adv) }) {
-			if fl.K.Key(a.Common().Args[1]) == rk+"#0" && errNilOf(fl.At(a), is(rk+"#1")) {
+		for _, ac := range callsIn(host, false, func(cc *ssa.CallCommon) bool { return calleeIs(cc, adv) }) {
+			if hfl.K.Key(ac.Common().Args[1]) == rk+"#0" && errNilOf(hfl.At(ac), is(rk+"#1")) {
 				reached = true
 			}
 		}
-		w := reachAvoid(s, isReturn, func(in ssa.Instruction) bool {
+		w := reachAvoid(call, isReturn, func(in ssa.Instruction) bool {
 			ci, ok := in.(ssa.CallInstruction)
-			return ok && calleeIs(ci.Common(), adv) && fl.K.Key(ci.Common().Args[1]) == rk+"#0"
+			return ok && calleeIs(ci.Common(), adv) && hfl.K.Key(ci.Common().Args[1]) == rk+"#0"
 		})
 		// the error path may return without advancing; only the success edge must reach advanceView
 		okReach := reached
 		if w != nil {
-			fw := fl.At(w)
+			fw := hfl.At(w)
 			okReach = okReach && notNilOf(fw, is(rk+"#1"))
 		}
-		c.Check(okReach, "C08.5", "OnRemoteTimeout: certificate reaches advanceView", p.Pos(s.Pos()),
+		c.Check(okReach, "C08.5", "OnRemoteTimeout: certificate reaches advanceView", p.Pos(call.Pos()),
 			"the sync info returned by RemoteTimeoutRule is passed to advanceView on every path where the rule succeeded",
 			"a successful RemoteTimeoutRule result can be dropped without calling advanceView")
 	}
+	if nRule == 0 {
+		c.Unresolved("C08.4", "OnRemoteTimeout", "no RemoteTimeoutRule call below the handler")
+	}
+
 	// C08.6 purge
 	if dov := p.Method("protocol/synchronizer", "timeoutCollector", "deleteOldViews"); dov != nil {
 		fd := NewFlow(p, dov)
